@@ -625,7 +625,7 @@ def spec_tol(spec):
     Program object run twice differs by that much), so cases with a measurement are compared
     with atol 2e-5; everything else with 1e-7."""
     txt = json.dumps(spec)
-    return 2e-5 if "Measure" in txt else 1e-7
+    return 2e-5 if ("Measure" in txt or "MSgate" in txt) else 1e-7
 
 
 def _s_param(p, prog):
@@ -946,6 +946,38 @@ def compose_verdict(spec, out):
 
 
 # ---- reset vs fresh
+def ms_cmd(rng, n):
+    return ["MSgate", [rng.choice([0.3, 0.5, -0.4]), rng.choice([0.0, 0.7]), rng.choice([1.0, 1.5]), rng.choice([1.0, 0.9]), False],
+            [rng.randrange(n)], False, {}]
+
+
+def result_extras(res):
+    """Everything a Result reports besides the state: samples and ancilla samples, canonicalised."""
+    def canon(d):
+        return {int(k): [np.asarray(x, dtype=float).ravel().tolist() for x in v] for k, v in (d or {}).items()}
+    sam = np.asarray(res.samples, dtype=float)
+    return {"samples": sam.ravel().tolist(), "samples_shape": list(sam.shape), "ancillae": canon(res.ancillae_samples)}
+
+
+def extras_diff(a, b, tol):
+    for key in ("samples_shape", "samples", "ancillae"):
+        x, y = a[key], b[key]
+        if key == "ancillae":
+            if sorted(x) != sorted(y) or any(len(x[k]) != len(y[k]) for k in x):
+                return "ancillae_samples (modes / number of recorded outcomes: %s vs %s)" % (
+                    {k: len(v) for k, v in x.items()}, {k: len(v) for k, v in y.items()})
+            for k in x:
+                for u, v in zip(x[k], y[k]):
+                    if len(u) != len(v) or not np.allclose(u, v, atol=tol, rtol=0):
+                        return "ancillae_samples values of mode %d" % k
+        elif key == "samples":
+            if len(x) != len(y) or not np.allclose(x, y, atol=tol, rtol=0, equal_nan=True):
+                return "samples"
+        elif x != y:
+            return key
+    return None
+
+
 def gen_reset(rng, backend):
     n = rng.randint(1, 3 if backend != "fock" else 2)
     hist = []
@@ -967,7 +999,13 @@ def gen_reset(rng, backend):
     opts = None
     if backend == "fock" and rng.random() < 0.4:
         opts = {"cutoff_dim": rng.choice([4, 6])}
-    return {"n": n, "backend": backend, "hist": hist, "q": q, "reset_opts": opts, "same_call": rng.random() < 0.3}
+    if backend == "bosonic" and rng.random() < 0.6:
+        # measurement-based squeezing, single-shot map: its ancilla outcomes are reported in Result.ancillae_samples
+        for cm in hist + [q] if rng.random() < 0.7 else hist:
+            if rng.random() < 0.8:
+                cm.insert(rng.randint(0, next((i for i, c in enumerate(cm) if c[0].startswith("Measure")), len(cm))), ms_cmd(rng, n))
+    return {"n": n, "backend": backend, "hist": hist, "q": q, "reset_opts": opts, "same_call": rng.random() < 0.3,
+            "np_seed": rng.randrange(10 ** 6)}
 
 
 def reset_verdict(spec):
@@ -1004,11 +1042,22 @@ def reset_verdict(spec):
     for p in progs:
         if p in eng.run_progs:
             continue
+    extras = {}
+
+    def run_q(e, prog, tag):
+        np.random.seed(spec.get("np_seed", 0))       # same draws for both engines
+        res = e.run(prog)
+        extras[tag] = result_extras(res)
+        return res
     q1 = s_build(sf.Program(n), spec["q"], {}, 0)
-    a = attempt(lambda: eng.run(q1), backend)
+    a = attempt(lambda: run_q(eng, q1, "a"), backend)
     eng2 = sf.Engine(backend, backend_options={**BACKENDS[backend], **(spec["reset_opts"] or {})})
     q2 = s_build(sf.Program(n), spec["q"], {}, 0)
-    b = attempt(lambda: eng2.run(q2), backend)
+    b = attempt(lambda: run_q(eng2, q2, "b"), backend)
+    if "a" in extras and "b" in extras:
+        d = extras_diff(extras["a"], extras["b"], max(spec_tol(spec), 1e-6))
+        if d:
+            return ("reset:result-differs-from-fresh:" + d.split(" ")[0], "after reset Result.%s differs from a new engine's on %s" % (d, backend))
     if not same_sig(a, b, spec_tol(spec)):
         return ("reset:differs-from-fresh", "after reset -> %s, fresh engine -> %s on %s" % (brief(a), brief(b), backend))
     return None
@@ -1297,7 +1346,7 @@ def search(ctx):
             ctx.counterexample(v[0], v[1], d)
     merge_sweep(ctx)
     for _ in range(ctx.budget(30, 1200)):
-        spec = gen_reset(rng, pick())
+        spec = gen_reset(rng, "bosonic" if rng.random() < 0.2 else pick())
         v = reset_verdict(spec)
         ctx.case({"reset": spec}, nontrivial=True, bucket="reset:" + spec["backend"])
         if v:
